@@ -46,6 +46,7 @@ def run(ctx: Ctx):
 
     id_truthiness(ctx)
     element_transform_lookup(ctx)
+    insertion_hide_survives(ctx)
     stale_reference_table(ctx)
     from .common import value_any_lint
 
@@ -438,3 +439,76 @@ def empties_from_pruning_base(ctx: Ctx):
                         ctx.undecided("empties.source", where, f"`empty_idxs` <- {u(arg)[:60]}: no measure read derived", "the pruning base / pruning mask")
     ctx.count("collator calls with an empties argument", n)
     ctx.require_min("collator calls with an empties argument", 6)
+
+
+def insertion_hide_survives(ctx: Ctx):
+    """A derived multiple-response item hidden through a `"hide": true` copy of its insertion stays hidden whatever ELSE the
+    transforms say about that element (a fill colour, a name): `Elements.from_typedef` is executed over a model MR
+    dimension up to the construction of the element transforms, and the transforms each element ends up with are read
+    off.  "Hidden iff asked": hiding was asked for, an element transform without a word on visibility does not take it back."""
+    from ..dectab import DTop, ModelInterp, Raises, exec_function
+
+    els = ctx.repo.cls("dimension.py", "Elements")
+    m = ctx.repo.lookup(els, "from_typedef")
+    where = "dimension.py::Elements.from_typedef [insertion-level hide + element transforms]"
+    if m is None:
+        raise AnalysisError("Elements.from_typedef vanished")
+    calls = [c for c in ast.walk(m.node) if isinstance(c, ast.Call) and u(c.func) == "_ElementTransforms" and c.args]
+    if not calls:
+        ctx.undecided("hidden-set.insertion-hide", where, "no _ElementTransforms(...) construction found", "")
+        return
+    element_defs = [
+        {"id": 1, "value": {"id": "A&B", "derived": True, "references": {"alias": "A&B"}}},
+        {"id": 2, "value": {"id": "0001", "references": {"alias": "bool1"}}},
+        {"id": 3, "value": {"id": "0002", "references": {"alias": "bool2"}}},
+    ]
+    insertion = {"function": "any_selected", "name": "A&B", "anchor": "top", "hide": True}
+    cases = [
+        ("hide on the insertion only", {}, 1, True),
+        ("+ a fill colour on the element (keyed by id)", {1: {"fill": "#ff0000"}}, 1, True),
+        ("+ a name on the element (string key)", {"1": {"name": "both"}}, 1, True),
+        ("+ a fill on ANOTHER element", {2: {"fill": "#00ff00"}}, 1, True),
+        ("another element, not hidden", {2: {"fill": "#00ff00"}}, 2, False),
+        ("another element explicitly hidden", {3: {"hide": True}}, 3, True),
+    ]
+    bad, n = [], 0
+    for label, element_xforms, eid, want_hidden in cases:
+        def atoms(x, eid=eid):
+            t = u(x)
+            if t == "DT.MR_SUBVAR":
+                return "MR_SUBVAR"
+            if isinstance(x, ast.Attribute) and isinstance(x.value, ast.Name) and x.value.id == "DT":
+                return x.attr
+            if t.startswith("_build_element_id("):
+                return eid
+            raise KeyError
+
+        it = ModelInterp(atoms, {})
+        it.methods = lambda name: (lambda mm: mm.node if mm is not None and mm.kind in ("method", "staticmethod", "classmethod") else None)(ctx.repo.lookup(els, name))
+        bind = {
+            "typedef": {"class": "enum", "elements": [dict(e) for e in element_defs]},
+            "dimension_transforms_dict": {"insertions": [dict(insertion)], "elements": {k: dict(v) for k, v in element_xforms.items()}},
+            "dimension_type": "MR_SUBVAR",
+            "element_data_format": None,
+        }
+        try:
+            env = exec_function(it, m.node, bind, until=lambda st: isinstance(st, ast.For) and any(c in list(ast.walk(st)) for c in calls[:1]))
+            if not isinstance(env, dict) or "typedef" not in env:
+                raise DTop("the loop constructing the element transforms was not reached")
+            env = dict(env)
+            env["element_id"] = eid
+            got = it._sub(env).ev(calls[0].args[0])
+        except Raises as r:
+            bad.append(f"{label}: raises {r.etype}")
+            continue
+        except DTop as t:
+            ctx.undecided("hidden-set.insertion-hide", where, "DECTAB: " + str(t), "the hide asked for on the insertion reaches the element")
+            return
+        n += 1
+        hidden = isinstance(got, dict) and got.get("hide") is True
+        if hidden != want_hidden:
+            bad.append(f"{label}: element {eid} gets transforms {got!r} - " + ("the hide asked for on its insertion is gone" if want_hidden else "hidden without being asked"))
+    ctx.count("insertion-hide cases", n)
+    ctx.ob("hidden-set.insertion-hide", where, bad[:3] or f"{n} cases", "an item whose insertion carries \"hide\": true is hidden whatever other element transforms name it", not bad,
+           "hidden iff asked: a fill colour says nothing about visibility")
+    ctx.require_min("insertion-hide cases", 6)
